@@ -20,7 +20,10 @@ THEOREMS = ["LNN.C06_sweep_zero_fix",
             "LNN.C06_fol_terminates",
             "LNN.C06_fol_terminates_constants",
             "LNN.C06_fol_terminates_exists",
-            "LNN.C06_fol_returns_at_fixpoint"]
+            "LNN.C06_fol_returns_at_fixpoint",
+            # the executed loop with the grounding-propagation layer (Lemmas/PendTerm.lean)
+            "LNN.C06_layer_terminates_constants",
+            "LNN.C06_layer_query_terminates"]
 MODULES = ["LnnVerif.Props.C06", "LnnVerif.Props.C06Term"]
 FACETS = {"bounds", "reported"}
 MAXS = 200
